@@ -34,7 +34,7 @@ func init() { sim.Register(c20{}) }
 func (c20) ID() string    { return "C20" }
 func (c20) Level() string { return "exploration" }
 func (c20) Rule() string {
-	return "2-6 tasks, each a generated straight-line program over shared untracked tensors, shared tracked parameter leaves, a shared FC layer and shared activation / loss objects plus private tensors (forward ops, layer / activation / loss evaluation, graph construction on shared tracked parameters, RandU / RandN / initializers; back-propagation, Update and Reset only on graphs built from private leaves and shared untracked tensors). Stage A (deterministic): every task runs solo on a fresh setup, then all run as goroutines of which exactly one holds the baton; the baton moves at AST-inserted yield points according to an explicit preemption plan (random switching p in {1/10,1/100,1/1000}, or PCT-style 1-8 change points, optionally waiting for a site inside element generators / RNG draws / backward rules). Oracles: every result bitwise equal to the solo run (shape only for RNG-derived values), reflected state of every shared object unchanged at every context switch and at the end, no panic, each task within 4x its solo step count. Stage B (complement, runtime monitoring): the same scenarios on an uninstrumented -race build with real parallelism. Non-trivial: >= 1 preemption while another task had a library call in flight. Distinct: hash of the (step, site, from, to) switch sequence together with the programs."
+	return "2-6 tasks, each a generated straight-line program over shared untracked tensors, shared tracked parameter leaves, a shared FC layer and shared activation / loss objects plus private tensors (forward ops, layer / activation / loss evaluation, graph construction on shared tracked parameters, RandU / RandN / initializers; back-propagation, Update and Reset only on graphs built from private leaves and shared untracked tensors). Stage A (deterministic): every task runs solo on a fresh setup, then all run as goroutines of which exactly one holds the baton; the baton moves at AST-inserted yield points according to an explicit preemption plan (random switching p in {1/10,1/100,1/1000}, or PCT-style 1-8 change points, optionally waiting for a site inside element generators / RNG draws / backward rules). Oracles: every result bitwise equal to the solo run (shape only for RNG-derived values), reflected state of every shared object unchanged at every context switch and at the end, no panic, each task within 4x its solo step count. Stage B (complement, runtime monitoring): the same scenarios on an uninstrumented -race build with real parallelism. Non-trivial: >= 1 preemption while another task had a library call in flight. Distinct: hash of the (step, site, from, to) switch sequence together with the programs. Also: rejected calls inside the tasks (error words compared with the sequential run, error values held), resets of private results, every task applying the same shape operation to one derived shared tensor, the rng storm (one large random tensor against dozens of small calls)."
 }
 func (c20) Assumptions() []string {
 	return []string{
@@ -46,7 +46,7 @@ func (c20) Assumptions() []string {
 }
 func (c20) Extra() map[string]any {
 	e := baseExtra()
-	e["fault_kinds"] = []string{"preemption (context switch at a yield point inside a library call)"}
+	e["fault_kinds"] = []string{"preemption (context switch at a yield point inside a library call)", "invalid-call (rejected calls inside the tasks, error values held to the end of the task)"}
 	return e
 }
 
